@@ -807,6 +807,7 @@ func C07(c *vf.Ctx) {
 	}
 	runSysFamily(c, fam, nT, nR)
 	finishedRaceSchedule(c)
+	streamWire(c)
 	c.Cov["rule"] = "concurrency-heavy workloads (three client goroutines sending two-frame messages, closing, half-closing, cancelling in both modes, starting the next RPC, writes parked at arbitrary points, armed points between stream creation and registration) from TLC simulation and seeded random draws; every Transport.Write is parsed by the harness's own frame parser and checked: whole frames, ids non-decreasing, one kind per id, nothing after a final frame, one Write and one Read in flight, transport closed at most once. Every run is also validated against SystemTrace.tla."
 }
 
